@@ -26,13 +26,13 @@ Definition parse_obs (data : bytes) : term :=
   end.
 
 (* what a reader of the profile sees, per sample: expanded frames (leaf first), values, labels *)
-Definition frame_view (p : profile) : term :=
+Definition frame_view_f (file_of : mapping -> string) (p : profile) : term :=
   TL (map (fun s =>
     TL [TL (map (fun id =>
           match find_location p id with
           | Some l =>
               TL [TZ (l_addr l);
-                  TS (match find_mapping p (l_mapping l) with Some m => m_file m | None => "" end);
+                  TS (match find_mapping p (l_mapping l) with Some m => file_of m | None => "" end);
                   of_bool (l_folded l);
                   TL (map (fun ln => match find_function p (ln_fn ln) with
                                      | Some f => TL [TS (f_name f); TS (f_sysname f); TS (f_file f); TZ (f_startline f); TZ (ln_line ln); TZ (ln_col ln)]
@@ -40,6 +40,23 @@ Definition frame_view (p : profile) : term :=
           | None => TL [TS "<nil-location>"]
           end) (s_loc s));
         of_zs (s_val s); of_kss (s_label s); of_kzs (s_numlabel s); of_kss (s_numunit s)]) (p_sample p)).
+
+Definition frame_view := frame_view_f m_file.
+
+(* internal/driver/fetch.go unsourceMappings, run by the driver on every fetched profile: a mapping
+   without build id whose file name parses as an absolute URL has its file name cleared.  Which names
+   Go's url.Parse accepts as absolute is an oracle shipped with the case (like the regexp tables). *)
+Definition unsourced_file (abs : list string) (m : mapping) : string :=
+  if String.eqb (m_buildid m) "" && existsb (String.eqb (m_file m)) abs then "" else m_file m.
+
+(* F34: some frame shown sits in a mapping whose (non-empty) file name the driver clears *)
+Definition in_F34 (abs : list string) (p : profile) : bool :=
+  existsb (fun s => existsb (fun id =>
+    match find_location p id with
+    | Some l => match find_mapping p (l_mapping l) with
+                | Some m => negb (String.eqb (m_file m) "") && String.eqb (unsourced_file abs m) ""
+                | None => false end
+    | None => false end) (s_loc s)) (p_sample p).
 
 Definition run_C01 (i : term) : term :=
   let op := gs (gn i 0) in
@@ -56,7 +73,7 @@ Definition run_C01 (i : term) : term :=
     | _ => TL [TS "panic"]
     end
   else if String.eqb op "driverproto" then
-    TL [TS "ok"; frame_view (normalize (profile_of (gn i 1)))]
+    TL [TS "ok"; frame_view_f (unsourced_file (gss (gn i 2))) (normalize (profile_of (gn i 1)))]
   else TL [TS "unknown-op"].
 
 (* the implementation's panic message is not compared *)
@@ -96,5 +113,6 @@ Definition spec_C01 (i o : term) : bool :=
     if valid_b p && units_wf_b p then term_eqb o (TL [TS "ok"; frame_view (normalize p)]) else true
   else true.
 
-Definition cls_C01 (i : term) : list Z := [].
+Definition cls_C01 (i : term) : list Z :=
+  if String.eqb (gs (gn i 0)) "driverproto" && in_F34 (gss (gn i 2)) (normalize (profile_of (gn i 1))) then [34] else [].
 Definition judge_C01 := judge_all run_C01 eqv_C01 spec_C01 cls_C01 0.
